@@ -109,6 +109,73 @@ func mutateBytes(r *Rng, b []byte) []byte {
 	return out
 }
 
+// protoEdgeCorpus: wire-format corner cases around the three messages (all on the decoder side): nested groups,
+// large field numbers inside groups, huge declared lengths, varints that only truncate to a valid uint32,
+// packed values beyond 32 bits, an empty packed field, an explicit empty signer / data / namespace.
+func protoEdgeCorpus(r *Rng) [][]byte {
+	goodID := append(make([]byte, 18), r.Bytes(10)...)
+	blob := func(extra ...[]byte) []byte {
+		b := append(pbBytes(1, goodID), pbBytes(2, []byte{1, 2, 3})...)
+		for _, e := range extra {
+			b = append(b, e...)
+		}
+		return b
+	}
+	grp := func(num int, inner []byte) []byte { return append(append(pbTag(num, 3), inner...), pbTag(num, 4)...) }
+	var out [][]byte
+	add := func(b []byte) { out = append(out, b) }
+	// BlobProto
+	add(blob(pbBytes(5, nil)))                                    // explicit empty signer: 2a 00
+	add(blob(pbVarint(3, 1), pbBytes(5, nil)))                    // version 1 with an empty signer
+	add(blob(pbVarint(3, 1<<32)))                                 // share version 2^32 -> 0
+	add(blob(pbVarint(3, 1<<32+1), pbBytes(5, make([]byte, 20)))) // share version 2^32+1 -> 1, with signer
+	add(blob(pbVarint(4, 1<<32)))                                 // namespace version 2^32 -> 0
+	add(blob(pbVarint(4, 1<<32+255)))                             // -> 255
+	add(blob(grp(9, grp(10, grp(11, pbVarint(1, 5))))))           // unknown nested groups, depth 3
+	add(blob(grp(9, pbVarint(1<<29, 1))))                         // field number 2^29 inside a group
+	add(blob(grp(9, pbVarint(1<<28, 1))))
+	add(blob(append(pbTag(9, 3), pbTag(10, 4)...))) // mismatched end group
+	add(blob(pbTag(9, 3)))                          // unclosed group
+	add(append(pbTag(2, 2), uvarint(1<<31)...))     // declared length 2^31, no data
+	add(append(blob(), append(pbTag(7, 2), uvarint(1<<63)...)...))
+	add(append(pbBytes(1, nil), pbBytes(2, nil)...)) // explicit empty namespace id and data
+	add(blob(pbVarint(1<<29-1, 0)))                  // largest legal field number
+	add(blob(uvarint(uint64(1<<32) << 3)))           // field number 2^29 at top level
+	add(blob(pbTag(6, 6)))                           // wire type 6
+	// IndexWrapper
+	iw := func(extra ...[]byte) []byte {
+		b := pbBytes(1, []byte("tx bytes"))
+		for _, e := range extra {
+			b = append(b, e...)
+		}
+		return append(b, pbBytes(3, []byte("INDX"))...)
+	}
+	add(iw(pbBytes(2, nil)))                                                                            // empty packed field: 12 00
+	add(iw(pbBytes(2, append(uvarint(1<<32), uvarint(1<<32+7)...))))                                    // packed values >= 2^32
+	add(iw(pbVarint(2, 1<<32+9), pbBytes(2, uvarint(3))))                                               // unpacked >= 2^32, then packed
+	add(iw(pbBytes(2, []byte{0x80})))                                                                   // truncated varint inside packed
+	add(iw(pbBytes(2, append(uvarint(5), 0x80, 0x80, 0x80, 0x80, 0x80, 0x80, 0x80, 0x80, 0x80, 0x02)))) // 10-byte varint with a high last byte
+	add(iw(grp(12, grp(12, pbBytes(1, []byte("x"))))))
+	// BlobTx
+	btx := func(blobs [][]byte, extra ...[]byte) []byte {
+		b := pbBytes(1, []byte("inner"))
+		for _, bl := range blobs {
+			b = append(b, pbBytes(2, bl)...)
+		}
+		for _, e := range extra {
+			b = append(b, e...)
+		}
+		return append(b, pbBytes(3, []byte("BLOB"))...)
+	}
+	add(btx([][]byte{blob(pbBytes(5, nil))}))
+	add(btx([][]byte{blob(), blob(pbVarint(3, 1<<32))}))
+	add(btx([][]byte{blob()}, grp(8, grp(8, grp(8, nil)))))
+	add(btx([][]byte{blob()}, pbBytes(3, []byte("BLO\xff"))))
+	add(btx(nil))
+	add(btx([][]byte{nil}))
+	return out
+}
+
 func validEncodings(r *Rng) [][]byte {
 	nss := blobNamespaces(r, 2)
 	var out [][]byte
@@ -376,6 +443,12 @@ func genC16(c *Ctx) {
 		c.mark("delim" + hx(raw[:60]))
 	}
 	// byte strings
+	for _, b := range protoEdgeCorpus(r) {
+		c.add("btxunmarshal", hx(b))
+		c.add("iwunmarshal", hx(b))
+		c.add("blobunmarshal", hx(b))
+		c.count("proto_edge_corpus")
+	}
 	for i := 0; i < 500*c.scale; i++ {
 		var b []byte
 		switch r.Intn(4) {
@@ -639,6 +712,12 @@ func genC19(c *Ctx) {
 	c.add("blobnew", hx(tailNs), "07", "0", "nil")
 	_, err := share.NewBlob(share.TailPaddingNamespace, []byte{7}, 0, nil)
 	c.check(err != nil, "NewBlob", "accepted a version 255 namespace", map[string]any{})
+	for _, b := range protoEdgeCorpus(r) {
+		c.add("btxunmarshal", hx(b))
+		c.add("iwunmarshal", hx(b))
+		c.add("blobunmarshal", hx(b))
+		c.count("proto_edge_corpus")
+	}
 	// decoder inputs with reordered / duplicated / unknown / re-typed fields
 	for i := 0; i < 200*c.scale; i++ {
 		b := pick(r, validEncodings(r))
